@@ -99,7 +99,7 @@ def extract(repo):
     mut = []
     for fn, src in (("vm.rs", vm), ("lib.rs", lib), ("parse.rs", parse), ("analyze.rs", analyze), ("compile.rs", compile_)):
         for ln, line in enumerate(src.split("\n"), 1):
-            if re.search(r"\b(Cell|RefCell|Mutex|RwLock|Atomic\w+|static mut|thread_local|OnceCell|OnceLock|UnsafeCell)\b", line):
+            if re.search(r"\b(Cell|RefCell|Mutex|RwLock|Atomic(?:Bool|Ptr|Usize|Isize|[UI]\d+)|static mut|thread_local|OnceCell|OnceLock|UnsafeCell)\b", line):
                 # the hook module and cfg(test)-only statics are guarded
                 mut.append((fn, ln, line.strip()))
     c["MUTABILITY_SITES"] = mut
